@@ -22,6 +22,27 @@ Flow (DESIGN.md section 5, C07; specification spec/MolGrid.tla, which EXTENDS At
     (preset, template): if the spec says constructible the total charge of 10 exponent patterns
     must be reproduced within 1 %; otherwise the documented ValueError is recorded.
 
+Audit round (Part 1x of spec/MolGrid.tla; all of it is replayed in both tiers):
+  * weights handed over as an ARRAY to every constructor, callable weights through from_pruned (AimSpec);
+  * from_pruned with d_sectors AND s_sectors (s_sectors decide), with neither (documented default degree 50);
+  * dictionaries with superfluous entries in decreasing Z; argument representations (int16/int32/uint8 atomic
+    numbers, Fortran-ordered / strided coordinates, numpy scalars and arrays for size, radius, sectors) - the
+    specification's fan-out does not depend on them (law RepInvisible), so the grid must be bitwise the same;
+  * rotation seeds 1 and 2 + 7919*Seed mod 99991; the eight-atom C2H6 with interleaved elements;
+  * the plain constructor on atomic grids that differ per atom (radial grid, per-shell degrees, rotation seed),
+    sizes judged by TLC from the degree table (FanExpectedSizes, AtomGridDeg);
+  * harness relations: arguments and the shared radial grids are left unmodified, the same call twice gives the
+    same grid;
+  * store histories: get_atomic_grid(-i) and get_atomic_grid(M + j) must be rejected whether or not the atomic
+    grids are stored; a second subject (H2O, from_preset, callable weights, Seed-dependent rotation) with all
+    histories of length <= 2;
+  * end to end: 4 further exponent patterns on the lattice 0.3, 0.4, .., 30.0 chosen from Seed (law
+    ExponentsInRange), and every template once more rigidly moved (axis permutation, reflections, translation from
+    Seed; laws MovedRigid / MovedAdmissible) with its atoms in reverse order.
+Calibration of the end-to-end clause for the new exponents (gen/c07_calib.py: every single normalised Gaussian with
+exponent on the whole lattice 0.3..30.0 at every atom of every template and moved template, presets coarse /
+medium / sg_1): see CALIBRATION below; the bound stays the stated 1e-2.
+
 Tolerances: everything structural is compared bit for bit.  Integral identity sum_A int_A w_A f
 vs. mol.integrate(f): relative 1e-12 (measured 4e-16).  End-to-end clause: 1e-2 as stated in the
 property (measured worst 2.9e-4, see evidence `e2e_worst`).
@@ -68,7 +89,7 @@ def default_sizes():
     return {int(z): int(v[2]) for z, v in D.items()}
 
 
-def write_tables(wd, maxhist, fanobs_file=None):
+def write_tables(wd, maxhist, fanobs_file=None, seed=0):
     tabs = c05.preset_tables()
     presets = [{"name": n, "entries": [
         {"z": z, "kind": t[z][0],
@@ -85,6 +106,7 @@ def write_tables(wd, maxhist, fanobs_file=None):
         "DefaultSize == " + tlc.tla(default_sizes()),
         "GridSizes == " + tlc.tla({n: len(p) for n, (p, _) in GRID_POOL.items()}),
         f"MaxHist == {maxhist}",
+        f"Seed == {int(seed) % 1000}",
         f'FanObs == JsonDeserialize("{fanobs_file}")' if fanobs_file else "FanObs == <<>>",
         "====", ""]))
 
@@ -120,29 +142,122 @@ def _opt_value(o, pool=None, conv=lambda v: v):
     return {int(p[0]): conv(p[1]) for p in o["v"]}
 
 
-def _aim(opt):
-    return IntAim() if opt["aim"] == "callable" else None
+def aim_values(sizes):
+    """The atom-in-molecule weights handed over as an ARRAY (spec: AimSpec what = IntAimValues): exactly
+    representable, different on every atom and varying inside an atom."""
+    return np.concatenate([k + 2.0 + 0.125 * (np.arange(int(n)) % 5) for k, n in enumerate(sizes)])
 
 
-def build_convenience(opt, mols, pool):
+def _aim(opt, sizes=None):
+    if opt["aim"] == "callable":
+        return IntAim()
+    if opt["aim"] == "array":
+        return aim_values(sizes)
+    return None
+
+
+BASE_REP = {"atnums": "int64", "coords": "c", "scal": "py"}
+
+
+def _represent(opt, atn, atc):
+    """Atomic numbers / coordinates in the representation the option asks for (same values)."""
+    r = opt.get("rep", BASE_REP)
+    atn = np.asarray(atn).astype(r["atnums"])
+    if r["coords"] == "f":
+        atc = np.asfortranarray(atc)
+    elif r["coords"] == "view":
+        big = np.full((len(atc), 6), 7.25)
+        big[:, ::2] = atc
+        atc = big[:, ::2]
+    return atn, atc, r["scal"]
+
+
+def _sect_value(o, scal):
+    def conv(v):
+        if isinstance(v, list):
+            return np.array([int(x) for x in v], dtype=np.int64) if scal == "np" else [int(x) for x in v]
+        return np.int64(int(v)) if scal == "np" else int(v)
+    return _opt_value(o, conv=conv)
+
+
+def convenience_call(opt, mols, pool, sizes=None):
+    """(callable, positional arguments, keyword arguments, aim object) of the constructor call an option
+    stands for.  `sizes` (of the atomic grids) is only needed when the weights are handed over as an array."""
+    from grid.atomgrid import AtomGrid
     from grid.molgrid import MolGrid
     atn, atc = _molecule(mols, opt["mol"])
-    aim = _aim(opt)
+    atn, atc, scal = _represent(opt, atn, atc)
+    aim = _aim(opt, sizes)
+    if opt["ctor"] == "direct":
+        atgrids = []
+        for k, a in enumerate(opt["atoms"]):
+            atgrids.append(AtomGrid(pool[a["rgrid"]], degrees=[int(d) for d in a["degrees"]], center=np.array(atc[k]),
+                                    rotate=int(a["rotate"])))
+        from grid.becke import BeckeWeights
+        return MolGrid, [atn, atgrids, BeckeWeights(order=3) if aim is None else aim], dict(store=bool(opt["store"])), aim
     rg = _opt_value(opt["rgrid"], conv=lambda n: pool[n])
     kw = dict(rgrid=rg, aim_weights=aim, rotate=int(opt["rotate"]), store=bool(opt["store"]))
     if opt["ctor"] == "from_size":
-        g = MolGrid.from_size(atn, atc, int(opt["size"]), **kw)
-    elif opt["ctor"] == "from_preset":
-        g = MolGrid.from_preset(atn, atc, _opt_value(opt["preset"]), **kw)
-    else:
-        radius = _opt_value(opt["radius"], conv=lambda q: float(_fr(q)))
-        rs = [[float(_fr(q)) for q in s] for s in opt["r_sectors"]]
-        sect = _opt_value(opt["sect"], conv=lambda v: [int(x) for x in v] if isinstance(v, list) else int(v))
-        if opt["sect_kind"] == "d":
-            g = MolGrid.from_pruned(atn, atc, radius, rs, d_sectors=sect, **kw)
-        else:
-            g = MolGrid.from_pruned(atn, atc, radius, rs, s_sectors=sect, **kw)
-    return g, aim
+        size = np.int64(opt["size"]) if scal == "np" else int(opt["size"])
+        return MolGrid.from_size, [atn, atc, size], kw, aim
+    if opt["ctor"] == "from_preset":
+        return MolGrid.from_preset, [atn, atc, _opt_value(opt["preset"])], kw, aim
+    radius = _opt_value(opt["radius"], conv=lambda q: float(_fr(q)))
+    if scal == "np":
+        radius = np.array(radius) if isinstance(radius, list) else np.float64(radius)
+    elif scal == "int" and not isinstance(radius, list):
+        assert float(radius).is_integer()
+        radius = int(radius)
+    rs = [[float(_fr(q)) for q in s] for s in opt["r_sectors"]]
+    if scal == "np":
+        rs = [np.array(r, dtype=float) for r in rs]
+    kind = opt["sect_kind"]
+    if kind == "d":
+        kw["d_sectors"] = _sect_value(opt["sect"], scal)
+    elif kind == "s":
+        kw["s_sectors"] = _sect_value(opt["sect"], scal)
+    elif kind == "both":
+        kw["d_sectors"] = _sect_value(opt["dsect"], scal)
+        kw["s_sectors"] = _sect_value(opt["sect"], scal)
+    elif kind != "default":
+        raise tlc.MachineryError(f"unknown sect_kind {kind!r}")
+    return MolGrid.from_pruned, [atn, atc, radius, rs], kw, aim
+
+
+def build_convenience(opt, mols, pool, sizes=None):
+    fn, args, kw, aim = convenience_call(opt, mols, pool, sizes)
+    return fn(*args, **kw), aim
+
+
+def _snapshot(x):
+    """Deep copy of the plain-data part of an argument (grids / callables are kept by reference)."""
+    if isinstance(x, np.ndarray):
+        return np.array(x, copy=True)
+    if isinstance(x, list):
+        return [_snapshot(v) for v in x]
+    if isinstance(x, tuple):
+        return tuple(_snapshot(v) for v in x)
+    if isinstance(x, dict):
+        return {k: _snapshot(v) for k, v in x.items()}
+    return x
+
+
+def _unchanged(a, b):
+    if isinstance(a, np.ndarray) or isinstance(b, np.ndarray):
+        return (isinstance(a, np.ndarray) and isinstance(b, np.ndarray) and a.dtype == b.dtype and a.shape == b.shape
+                and np.array_equal(a, b))
+    if isinstance(a, (list, tuple)):
+        return type(a) is type(b) and len(a) == len(b) and all(_unchanged(x, y) for x, y in zip(a, b))
+    if isinstance(a, dict):
+        return isinstance(b, dict) and list(a) == list(b) and all(_unchanged(a[k], b[k]) for k in a)
+    if isinstance(a, (int, float, str, bool, np.generic)) or a is None:
+        return type(a) is type(b) and a == b
+    return a is b
+
+
+def _pool_intact(pool):
+    return all(np.array_equal(pool[n].points, np.array(p)) and np.array_equal(pool[n].weights, np.array(w))
+               for n, (p, w) in GRID_POOL.items())
 
 
 def _default_rgrid(z):
@@ -151,7 +266,7 @@ def _default_rgrid(z):
     return AtomGrid.from_preset(int(z), "coarse", None).rgrid
 
 
-def build_by_hand(opt, calls, mols, pool):
+def build_by_hand(opt, calls, mols, pool, aimspec=None):
     from grid.atomgrid import AtomGrid
     from grid.becke import BeckeWeights
     from grid.molgrid import MolGrid
@@ -164,6 +279,8 @@ def build_by_hand(opt, calls, mols, pool):
         if c["fn"] == "AtomGrid":
             rg = pool[c["rgrid"][1]] if given else _default_rgrid(c["rgrid"][1])
             atgrids.append(AtomGrid(rg, None, sizes=[int(s) for s in c["sizes"]], center=cen, rotate=rot))
+        elif c["fn"] == "AtomGridDeg":
+            atgrids.append(AtomGrid(pool[c["rgrid"][1]], degrees=[int(d) for d in c["degrees"]], center=cen, rotate=rot))
         elif c["fn"] == "from_preset":
             rg = pool[c["rgrid"][1]] if given else None
             atgrids.append(AtomGrid.from_preset(int(c["atnum"]), c["preset"], rg, center=cen, rotate=rot))
@@ -176,11 +293,43 @@ def build_by_hand(opt, calls, mols, pool):
             else:
                 atgrids.append(AtomGrid.from_pruned(rg, float(_fr(c["radius"])), r_sectors=secs, d_sectors=None, s_sectors=vals,
                                                     center=cen, rotate=rot))
-    aim = IntAim() if opt["aim"] == "callable" else BeckeWeights(order=3)
+    if aimspec is None:     # entries emitted before AimSpec existed
+        aimspec = {"kind": "callable", "what": "IntAim" if opt["aim"] == "callable" else "BeckeWeights", "order": 3}
+    if aimspec["kind"] == "array":
+        aim = aim_values([g.size for g in atgrids])
+    elif aimspec["what"] == "IntAim":
+        aim = IntAim()
+    else:
+        aim = BeckeWeights(order=int(aimspec["order"]))
     return MolGrid(atn, atgrids, aim, store=bool(opt["store"])), atgrids, aim
 
 
+def _is_x(opt):
+    return "rep" in opt
+
+
+def _fan_key_x(opt):
+    """Key of an option of the extended space (Part 1x of the specification)."""
+    r = opt["rep"]
+    if opt["ctor"] == "from_pruned" and r["scal"] == "int":
+        return "fanout:from_pruned:int-radius"
+    parts = [f"x:mol={opt['mol']}"]
+    if opt["ctor"] == "from_pruned":
+        parts.append(f"radius={opt['radius']['shape']}:sect={opt['sect_kind']}-{opt['sect']['shape']}"
+                     + (f"+d-{opt['dsect']['shape']}" if opt["sect_kind"] == "both" else ""))
+    if opt["ctor"] == "from_preset":
+        parts.append(f"preset={opt['preset']['shape']}{len(opt['preset']['v']) if opt['preset']['shape'] == 'dict' else ''}")
+    if "rgrid" in opt:
+        parts.append(f"rgrid={opt['rgrid']['shape']}{len(opt['rgrid']['v']) if opt['rgrid']['shape'] == 'dict' else ''}")
+    if r != BASE_REP:
+        parts.append(f"rep={r['atnums']}-{r['coords']}-{r['scal']}")
+    parts.append(f"rotate={opt.get('rotate', 'per-atom')}:store={opt['store']}:aim={opt['aim']}")
+    return f"fanout:{opt['ctor']}:" + ":".join(parts)
+
+
 def _fan_key(opt):
+    if _is_x(opt):
+        return _fan_key_x(opt)
     if opt["ctor"] == "from_pruned" and opt["sect"]["shape"] == "one":
         return f"fanout:from_pruned:int-{opt['sect_kind']}_sectors"
     parts = [f"mol={opt['mol']}", f"rgrid={opt['rgrid']['shape']}"]
@@ -201,14 +350,16 @@ def _fan_worker(job):
         opt, calls = ent["opt"], ent["calls"]
         key = _fan_key(opt)
         try:
-            hand, atgrids, aim_h = _quiet(build_by_hand, opt, calls, mols, pool)
+            hand, atgrids, aim_h = _quiet(build_by_hand, opt, calls, mols, pool, ent.get("aim"))
         except Exception as e:  # noqa: BLE001
             viol.append((key + ":by-hand", f"the atomic constructions listed by the specification cannot be built: {type(e).__name__}: {e}", ent))
             obs.append({"opt": opt, "o": {"ok": False, "err": "by-hand"}})
             continue
         sizes = [int(g.size) for g in atgrids]
         try:
-            conv, aim_c = _quiet(build_convenience, opt, mols, pool)
+            fn, args, kw, aim_c = _quiet(convenience_call, opt, mols, pool, sizes)
+            before = _snapshot((args, kw))
+            conv = _quiet(fn, *args, **kw)
         except Exception as e:  # noqa: BLE001
             viol.append((key, f"MolGrid.{opt['ctor']} raised {type(e).__name__}: {e} for an admissible option combination "
                          f"(the specification maps it to {len(calls)} atomic constructions)", ent))
@@ -223,6 +374,18 @@ def _fan_worker(job):
                                  f"atomic constructions {calls} (max diff {d:.3e})", ent))
             idx = [int(i) for i in np.asarray(conv.indices)]
             o = {"ok": True, "atom_sizes": sizes, "indices": idx, "size": int(conv.size)}
+            # the constructor leaves its arguments (and the shared radial grids) as they were
+            if not _unchanged(before, (args, kw)):
+                viol.append((key + ":arguments-modified", f"MolGrid.{opt['ctor']} modified one of its arguments in place", ent))
+            if not _pool_intact(pool):
+                viol.append((key + ":rgrid-modified", f"MolGrid.{opt['ctor']} modified a radial grid it was given", ent))
+                pool.update(_pool())
+            if _is_x(opt):
+                # same call once more, with freshly made arguments: the same grid
+                again, _ = _quiet(build_convenience, opt, mols, pool, sizes)
+                for name in ("points", "weights", "atweights", "aim_weights", "atcoords", "indices"):
+                    if not np.array_equal(np.asarray(getattr(again, name)), np.asarray(getattr(conv, name))):
+                        viol.append((key + f":repeat:{name}", f"MolGrid.{opt['ctor']} called twice with equal arguments: `{name}` differs", ent))
             # concatenation / weights law on the convenience-built grid
             cat_p = np.vstack([g.points for g in atgrids])
             cat_w = np.hstack([g.weights for g in atgrids])
@@ -234,7 +397,14 @@ def _fan_worker(job):
                 viol.append((key + ":weights-product", "weights differ from atweights * aim_weights", ent))
             if not np.array_equal(conv.atcoords, np.array([g.center for g in atgrids])):
                 viol.append((key + ":atcoords", "atcoords are not the centres of the atomic grids", ent))
-            if aim_c is not None:
+            if isinstance(aim_c, np.ndarray):
+                # weights handed over as an array: they ARE the atom-in-molecule weights
+                if not (np.asarray(conv.aim_weights).shape == aim_c.shape and np.array_equal(conv.aim_weights, aim_c)
+                        and np.array_equal(aim_c, aim_values(sizes))):
+                    viol.append((key + ":array-result", "aim_weights is not the array handed to the constructor", ent))
+            if isinstance(aim_c, IntAim) and aim_c.args is None:
+                viol.append((key + ":callable-not-called", "the aim callable handed to the constructor was never called", ent))
+            elif isinstance(aim_c, IntAim):
                 p, c, z, i = aim_c.args
                 atn, _ = _molecule(mols, opt["mol"])
                 if not (np.array_equal(p, cat_p) and np.array_equal(c, conv.atcoords) and np.array_equal(z, atn)
@@ -256,7 +426,7 @@ def _fan_worker(job):
                 pass
             # the atom-in-molecule weights themselves, through a route that shares no chunking with the
             # whole-grid call used by MolGrid: atom by atom, on that atom's segment only
-            if aim_c is None:
+            if opt["aim"] == "becke":
                 from grid.becke import BeckeWeights
                 bw = BeckeWeights(order=3)
                 znum = np.asarray(_molecule(mols, opt["mol"])[0])
@@ -293,8 +463,10 @@ def _fan_worker(job):
 # ---------------------------------------------------------------------------------------------
 # store flag
 
-def _store_pair(mols, pool):
+def _store_pair(mols, pool, subject=None):
     from grid.molgrid import MolGrid
+    if subject is not None:     # an option record of the specification (StoreSubject2)
+        return [build_convenience(dict(subject["opt"], store=s), mols, pool)[0] for s in (True, False)]
     atn, atc = _molecule(mols, 4)  # CO
     return [MolGrid.from_size(atn, atc, 6, rgrid=pool["G1"], rotate=37, store=s) for s in (True, False)]
 
@@ -310,18 +482,27 @@ def _observe(g, ob, f):
                 "atcoords": np.array(g.atcoords), "size": np.array(g.size)}
     if name == "integrate":
         return {"integral": np.array(g.integrate(f))}
+    if name in ("get_atomic_grid_neg", "get_atomic_grid_oob"):
+        index = -int(ob[1]) if name.endswith("neg") else len(g.atcoords) + int(ob[1])
+        try:
+            a = g.get_atomic_grid(index)
+        except Exception as e:  # noqa: BLE001
+            return {"raised": np.array(1), "exception": np.array(type(e).__name__)}
+        return {"raised": np.array(0), "exception": np.array(f"returned a grid of {a.size} points")}
     a = g.get_atomic_grid(i) if name == "get_atomic_grid" else g[i]
     return {"points": np.array(a.points), "weights": np.array(a.weights), "centre": np.array(a.center), "size": np.array(a.size)}
 
 
 def _store_worker(job):
-    behaviours, mols = job
+    behaviours, mols = job[:2]
+    subject = job[2] if len(job) > 2 else None
+    sub = ""    # keys do not name the subject (the known finding store:getitem:* concerns every grid); the case does
     pool = _pool()
     viol = []
     n = 0
     for beh in behaviours:
         try:
-            gs = _quiet(_store_pair, mols, pool)
+            gs = _quiet(_store_pair, mols, pool, subject)
             f = np.cos(gs[0].points[:, 0]) + 2.0
             ref = gs[1]
             idx = np.asarray(ref.indices)
@@ -329,9 +510,16 @@ def _store_worker(job):
                 o_t, o_f = (_quiet(_observe, g, ob, f) for g in gs)
                 n += 1
                 for k in o_t:
+                    if k == "exception":
+                        continue    # which exception is raised is not specified; whether one is raised is
                     if o_t[k].shape != o_f[k].shape or not np.array_equal(o_t[k], o_f[k]):
-                        viol.append((f"store:{ob[0]}:{k}", f"history {beh[:step + 1]}: `{k}` of {ob[0]}({ob[1] - 1 if ob[1] else ''}) differs between "
-                                     f"store=True and store=False", {"history": beh}))
+                        viol.append((f"store:{sub}{ob[0]}:{k}", f"history {beh[:step + 1]}: `{k}` of {ob[0]}({ob[1] - 1 if ob[1] else ''}) differs between "
+                                     f"store=True and store=False", {"history": beh, "subject": subject["opt"] if subject else "CO, from_size"}))
+                if "raised" in o_t:     # specification of the observer: the call is rejected, stored or not
+                    for tag, o in (("store=True", o_t), ("store=False", o_f)):
+                        if int(o["raised"]) != 1:
+                            viol.append((f"store:{sub}{ob[0]}:spec:{tag}", f"history {beh[:step + 1]}: {ob[0]}({ob[1]}) [{tag}] {o['exception']} "
+                                         f"instead of being rejected", {"history": beh, "subject": subject["opt"] if subject else "CO, from_size"}))
                 # against the specification of the observer
                 if ob[0] in ("get_atomic_grid", "getitem"):
                     i = ob[1] - 1
@@ -339,14 +527,14 @@ def _store_worker(job):
                     want_w = ref.atweights[seg] if ob[0] == "get_atomic_grid" else ref.weights[seg]
                     for tag, o in (("store=True", o_t), ("store=False", o_f)):
                         if not np.array_equal(o["points"], ref.points[seg]):
-                            viol.append((f"store:{ob[0]}:spec:points", f"{ob[0]}({i}) [{tag}] does not return the points of atom {i}", {"history": beh}))
+                            viol.append((f"store:{sub}{ob[0]}:spec:points", f"{ob[0]}({i}) [{tag}] does not return the points of atom {i}", {"history": beh, "subject": subject["opt"] if subject else "CO, from_size"}))
                         if o["weights"].shape != want_w.shape or not np.array_equal(o["weights"], want_w):
-                            viol.append((f"store:{ob[0]}:spec:weights:{tag}",
+                            viol.append((f"store:{sub}{ob[0]}:spec:weights:{tag}",
                                          f"{ob[0]}({i}) [{tag}] does not return the "
                                          f"{'atomic weights' if ob[0] == 'get_atomic_grid' else 'atomic weights times aim weights'} of atom {i}",
-                                         {"history": beh}))
+                                         {"history": beh, "subject": subject["opt"] if subject else "CO, from_size"}))
         except Exception as e:  # noqa: BLE001
-            viol.append((f"store:raised:{beh[-1][0]}", f"history {beh}: {type(e).__name__}: {e}", {"history": beh}))
+            viol.append((f"store:{sub}raised:{beh[-1][0]}", f"history {beh}: {type(e).__name__}: {e}", {"history": beh, "subject": subject["opt"] if subject else "CO, from_size"}))
     return n, viol
 
 
@@ -354,7 +542,8 @@ def _store_worker(job):
 # end to end
 
 def _e2e_worker(job):
-    ob, mols, patterns, tree = job
+    ob, mols, patterns, tree = job[:4]
+    single = job[4] if len(job) > 4 else None
     from grid.molgrid import MolGrid
     atn, atc = _molecule(mols, ob["mol"])
     name = mols[ob["mol"] - 1]["name"]
@@ -379,6 +568,20 @@ def _e2e_worker(job):
             rho += np.asarray(evaluate_np(tree, {"alpha": np.float64(float(_fr(q))), "r2": r2[:, k]}, np.float64), dtype=float)
         val = float(g.integrate(rho))
         out["errors"].append(abs(val - len(atn)) / len(atn))
+    # sums that populate one centre only (total charge 1), exponent over the specification's lattice
+    if single is not None:
+        alphas = np.array([float(_fr(q)) for q in single], dtype=np.float64)
+        out["single"] = []
+        for k in range(len(atn)):
+            errs = []
+            for chunk in np.array_split(alphas, max(1, int(g.size * len(alphas) // 4_000_000))):
+                vals = np.asarray(evaluate_np(tree, {"alpha": chunk[None, :], "r2": r2[:, k][:, None]}, np.float64), dtype=float)
+                errs.append(np.abs(np.asarray(g.weights) @ vals - 1.0))
+            errs = np.concatenate(errs)
+            bad = alphas[~(errs <= 1e-2)]
+            j = int(np.argmax(errs))
+            out["single"].append({"atom": k + 1, "worst": float(errs[j]), "at": float(alphas[j]), "n": int(len(alphas)),
+                                  "bad": [float(bad.min()), float(bad.max()), int(len(bad))] if len(bad) else None})
     return out
 
 
@@ -395,15 +598,23 @@ def _report_some(rep, items, counter_name):
 
 
 def run(tier: str) -> int:
+    import time
     rep = Report(PROP, tier, "model_checking")
     rng = np.random.default_rng(rep.seed)
+    t0, phases = time.time(), {}
+
+    def lap(name):
+        nonlocal t0
+        phases[name] = round(time.time() - t0, 2)
+        t0 = time.time()
     wd = tlc.scratch(f"{PROP}-{tier}")
     quick = tier == "quick"
     maxhist = 3 if quick else 4
-    write_tables(wd, maxhist)
+    write_tables(wd, maxhist, seed=rep.seed)
 
     res = tlc.run_tlc("MolGrid", "MC_MolGridGen.cfg", wd, workers=4, timeout=900).require_ok("MC_MolGridGen")
     rep.tlc(res, "MC_MolGridGen")
+    lap("tlc_gen")
     for t in tlc.tagged(res.stdout, "LAWFAIL"):
         rep.violation(f"model:law:{t[1]}", f"TLC: law {t[1]} of spec/MolGrid.tla is false")
     if res.status == "violation":
@@ -412,14 +623,17 @@ def run(tier: str) -> int:
         fan = json.load(open(wd / "molgrid_fanout.json"))
         mols = json.load(open(wd / "molgrid_molecules.json"))
         behaviours = json.load(open(wd / "molgrid_behaviours.json"))
+        beh2 = json.load(open(wd / "molgrid_behaviours2.json"))
         e2e = json.load(open(wd / "molgrid_e2e.json"))
     except FileNotFoundError as e:
         raise tlc.MachineryError(f"TLC did not emit {e.filename}")
     fan.sort(key=lambda e: json.dumps(e["opt"], sort_keys=True))
     behaviours.sort(key=json.dumps)
+    beh2["behaviours"].sort(key=json.dumps)
 
     res = tlc.run_tlc("MolGrid", "MC_MolGridStore.cfg", wd, workers=8, timeout=900).require_ok("MC_MolGridStore")
     rep.tlc(res, "MC_MolGridStore")
+    lap("tlc_store")
     if res.status == "violation":
         rep.violation(f"model:{','.join(res.violated)}", f"TLC: {res.violated} violated in the store model; {tlc.last_state(res)}")
     diffs = {}
@@ -429,10 +643,13 @@ def run(tier: str) -> int:
         rep.violation(f"store:{name}:model", f"TLC (model of the code): observer {name} returns {acc[0]} with store=True, {acc[1]} with "
                       f"store=False; its specification says {acc[2]}", {"observer": name, "observations": acc})
 
+    fanx = [e for e in fan if _is_x(e["opt"])]      # Part 1x of the specification: always replayed completely
+    fan = [e for e in fan if not _is_x(e["opt"])]
     if quick:
         pick = sorted(rng.choice(len(fan), size=240, replace=False).tolist())
         fan = [fan[i] for i in pick]
-    pool = mp.get_context("fork").Pool(16)
+    fan = fan + fanx
+    pool = mp.get_context("fork").Pool(8)
     try:
         # ---- fan-out --------------------------------------------------------------------------
         jobs = [(fan[i::32], mols) for i in range(32)]
@@ -443,26 +660,35 @@ def run(tier: str) -> int:
             mxi = max(mxi, m_)
         fanobs.sort(key=lambda e: json.dumps(e["opt"], sort_keys=True))
         _report_some(rep, sorted(viol, key=lambda t: t[0]), "fanout_violations")
+        lap("replay_fanout")
         for e in fanobs:
             rep.evaluated(1, ("fan", _fan_key(e["opt"]), json.dumps(e["opt"].get("preset", e["opt"].get("size", 0)))))
         # ---- store histories ----------------------------------------------------------------------
-        jobs = [(behaviours[i::32], mols) for i in range(32)]
+        jobs = [(behaviours[i::32], mols) for i in range(32)] + [(beh2["behaviours"][i::8], mols, beh2["subject"]) for i in range(8)]
         viol = []
         nobs = 0
         for n, v in pool.imap_unordered(_store_worker, jobs):
             nobs += n
             viol += v
         _report_some(rep, sorted(viol, key=lambda t: t[0]), "store_violations")
+        lap("replay_store")
         for b in behaviours:
             rep.evaluated(1, ("history", json.dumps(b)))
-        rep.set("store_histories", len(behaviours))
+        for b in beh2["behaviours"]:
+            rep.evaluated(1, ("history2", json.dumps(b)))
+        rep.set("store_histories", len(behaviours) + len(beh2["behaviours"]))
         rep.set("store_observations_compared", nobs)
         # ---- end to end -----------------------------------------------------------------------------
         obl = sorted(e2e["obligations"], key=lambda o: (o["preset"], o["mol"]))
+        names = [m["name"] for m in mols]
         if quick:
-            obl = [o for o in obl if o["preset"] in ("coarse", "fine", "sg_1", "sg_2") and o["mol"] in (2, 5, 10, 11, 13, 14)]
+            obl = [o for o in obl if (o["preset"] in ("coarse", "fine", "sg_1", "sg_2") and o["mol"] in (2, 5, 10, 11, 13, 14))
+                   or (o["preset"] == "coarse" and names[o["mol"] - 1] == "crowd")      # the template at the 1.2 bohr edge
+                   or (o["preset"] in ("coarse", "sg_1") and names[o["mol"] - 1] in ("H2O~", "CONHCl~", "crowd~", "ArOH~"))]
         tree = e2e["density"]
-        jobs = [(o, mols, e2e["patterns"], tree) for o in obl]
+        lattices = {p["preset"]: p["exponents"] for p in e2e["single"]["lattice"]}
+        jobs = [(o, mols, e2e["patterns"], tree, lattices[o["preset"]] if o["mol"] <= e2e["single"]["templates"] else None) for o in obl]
+        worst1, worst1_at, n_single = 0.0, None, 0
         worst, worst_at, table = 0.0, None, {}
         for out in pool.imap_unordered(_e2e_worker, jobs, chunksize=1):
             key = f"e2e:{out['preset']}:{out['mol']}"
@@ -481,17 +707,32 @@ def run(tier: str) -> int:
                 if not err <= 1e-2:
                     rep.violation(key + f":pattern={j + 1}", f"total charge of exponent pattern {j + 1} off by {err:.3%} on the {out['preset']} "
                                   f"grid of {out['mol']} ({out['size']} points)", out)
+            for sg in out.get("single", []):
+                n_single += sg["n"]
+                rep.evaluated(1, ("e2e-single", out["preset"], out["mol"], sg["atom"]))
+                if sg["bad"] is None and sg["worst"] > worst1:
+                    worst1, worst1_at = sg["worst"], (out["preset"], out["mol"], sg["atom"], sg["at"])
+                if sg["bad"] is not None:
+                    rep.violation(f"e2e-single:{out['preset']}:{out['mol']}:atom={sg['atom']}",
+                                  f"the single normalised Gaussian on atom {sg['atom']} of {out['mol']} integrates to a charge off by up to "
+                                  f"{sg['worst']:.3%} (at exponent {sg['at']}) on the {out['preset']} grid ({out['size']} points); more than 1 % "
+                                  f"for {sg['bad'][2]} lattice exponents between {sg['bad'][0]} and {sg['bad'][1]}",
+                                  {k: v for k, v in out.items() if k != "errors"})
+        lap("replay_e2e")
         rep.set("e2e", table)
         rep.set("e2e_worst", {"relative_error": worst, "at": worst_at})
+        rep.set("e2e_single_worst_held", {"relative_error": worst1, "at": worst1_at, "gaussians_integrated": n_single})
     finally:
         pool.close()
         pool.join()
 
     with open(wd / "fanobs.json", "w") as f:
         json.dump(fanobs, f)
-    write_tables(wd, maxhist, "fanobs.json")
+    write_tables(wd, maxhist, "fanobs.json", seed=rep.seed)
     res = tlc.run_tlc("MolGrid", "MC_MolGridFan.cfg", wd, workers=8, timeout=900).require_ok("MC_MolGridFan")
     rep.tlc(res, "MC_MolGridFan")
+    lap("tlc_fan")
+    rep.set("phase_seconds", phases)
     if res.status == "violation":
         rep.violation(f"model:{','.join(res.violated)}", f"TLC: {res.violated} violated while judging the fan-out replays; {tlc.last_state(res)}")
     seen = set()
@@ -553,6 +794,32 @@ MUTANTS = [
     ("get_atomic_grid: centre of atom 0 when not stored", "grid.molgrid", "return LocalGrid(pts, wts, self._atcoords[index])",
      "return LocalGrid(pts, wts, self._atcoords[0])"),
     ("becke: call drops clip (end-to-end weights)", "grid.becke", "pt_ind=(indices - ibegin).clip(min=0),", "pt_ind=(indices - ibegin),"),
+    # ---- audit round: dimensions of Part 1x / the extended store observers ----
+    ("x: from_pruned ignores the weights handed over", "grid.molgrid",
+     "        if aim_weights is None:\n            aim_weights = BeckeWeights(order=3)\n\n        at_grids = []",
+     "        aim_weights = BeckeWeights(order=3)\n\n        at_grids = []"),
+    ("x: from_size replaces array weights by Becke", "grid.molgrid",
+     "        if aim_weights is None:\n            aim_weights = BeckeWeights(order=3)\n        atgrids = []",
+     "        if aim_weights is None or isinstance(aim_weights, np.ndarray):\n            aim_weights = BeckeWeights(order=3)\n        atgrids = []"),
+    ("x: from_pruned explicit d_sectors beat s_sectors", "grid.molgrid",
+     "        if s_sectors is not None:\n            d_sectors = [None] * natoms",
+     "        if s_sectors is not None and all(list(d) == [50] * len(d) for d in d_sectors):\n            d_sectors = [None] * natoms"),
+    ("x: from_pruned default d_sectors 30", "grid.molgrid", "d_sectors: int | list[list[int]] = 50,", "d_sectors: int | list[list[int]] = 30,"),
+    ("x: from_preset rgrid dict read by rank", "grid.molgrid", "                rad = rgrid[atnums[i]]\n",
+     "                rad = rgrid[sorted(rgrid)[sorted({int(z) for z in atnums}).index(int(atnums[i]))]]\n"),
+    ("x: from_pruned numpy integer sectors", "grid.molgrid", "        if isinstance(d_sectors, (int, np.integer)):", "        if isinstance(d_sectors, int):"),
+    ("x: from_pruned consumes the sector lists", "grid.molgrid", "                    d_sectors=d_sectors[i],\n", "                    d_sectors=d_sectors.pop(0),\n"),
+    ("x: from_preset rotation seed used as a flag", "grid.molgrid",
+     "atnum=atnums[i], preset=gd_type, rgrid=rad, center=atcoords[i], rotate=rotate",
+     "atnum=atnums[i], preset=gd_type, rgrid=rad, center=atcoords[i], rotate=37 if rotate else 0"),
+    ("x: get_atomic_grid answers from the store before checking the index", "grid.molgrid",
+     "        if index < 0:\n            raise ValueError(f\"index should be non-negative, got {index}\")\n        # get atomic grid if stored\n"
+     "        if self._atgrids is not None:\n            return self._atgrids[index]\n",
+     "        if self._atgrids is not None:\n            return self._atgrids[index]\n"
+     "        if index < 0:\n            raise ValueError(f\"index should be non-negative, got {index}\")\n"),
+    ("x: AtomGrid one degree for all shells misses the last shell", "grid.atomgrid",
+     "            degrees = np.ones(rgrid.size, dtype=int) * degrees\n",
+     "            degrees = np.ones(rgrid.size, dtype=int) * degrees\n            degrees[-1] = 3\n"),
 ]
 
 
